@@ -9,7 +9,7 @@ for p in sorted(glob.glob(f'{V}/props/C*.json')):
     d = json.load(open(p)); claimed[os.path.basename(p)[:-5]] = d
 na = json.load(open(f'{V}/props/not_applicable.json')) if os.path.exists(f'{V}/props/not_applicable.json') else {}
 hooks = subprocess.run(['git', '-C', '/repo', 'log', '--format=%H %s'], capture_output=True, text=True).stdout.splitlines()
-hook_commits = [l.split()[0] for l in hooks if l.split(' ', 1)[1].startswith('verif hooks')]
+hook_commits = [l.split()[0] for l in hooks if l.split(' ', 1)[1].startswith(('verif hooks', 'verif:'))]
 checks = []
 for pid in ids:
     if pid not in claimed: continue
